@@ -591,13 +591,37 @@ def run_via(case, rec):
             w.pump()
         elif op == "establish":
             cn = conns[step[1]]
-            if cn["ep"].d is not None and cn["ep"].proto is None:
+            if cn["ep"].d is not None and cn["ep"].proto is None and not cn.get("socks_dead"):
                 cn["ep"].establish()
                 socks_progress(cn)
+                w.pump()
+        elif op == "socks-lost":
+            # this connection's SOCKS link dies before Tor announced its stream
+            cn = conns[step[1]]
+            if cn["ep"].proto is not None and not cn["announced"] and not cn.get("socks_dead"):
+                from twisted.internet.error import ConnectionLost
+                from twisted.python.failure import Failure
+                cn["socks_dead"] = True
+                rec.count("sibling_socks_failures")
+                try:
+                    cn["ep"].proto.connectionLost(Failure(ConnectionLost()))
+                except Exception as e:
+                    w.exceptions.append(("socks-lost", repr(e)))
+                w.pump()
+        elif op == "socks-refuse":
+            # the TCP connection to the SOCKS port is refused
+            cn = conns[step[1]]
+            if cn["ep"].d is not None and cn["ep"].proto is None and not cn.get("socks_dead"):
+                from twisted.internet.error import ConnectionRefusedError
+                cn["socks_dead"] = True
+                rec.count("sibling_socks_failures")
+                cn["ep"].d.errback(ConnectionRefusedError())
                 w.pump()
         elif op == "announce":
             cn = conns[step[1]]
             socks_progress(cn)
+            if cn.get("socks_dead"):
+                continue
             if not cn["request_seen"] or cn["announced"]:
                 notes.append("announce-skipped")
                 continue      # causality: Tor has not seen the SOCKS request yet
@@ -730,6 +754,13 @@ def gen_via_case(rnd, nconn=None, perm=None):
     rnd.shuffle(est)
     steps += est
     ann = [("announce", c["i"]) for c in conns]
+    if n >= 2 and rnd.random() < 0.35:
+        victim = rnd.randrange(n)
+        if rnd.random() < 0.5:
+            steps.append(("socks-lost", victim))            # after every link is up, before any announcement
+        else:
+            k = steps.index(("establish", victim))
+            steps[k] = ("socks-refuse", victim)
     extra = []
     for k in range(rnd.choice([0, 1, 2, 3])):
         if rnd.random() < 0.3:
@@ -811,7 +842,7 @@ def run_shard(spec, rec):
             ann = [s for s in case["steps"] if s[0] == "announce"]
             other = [("unrelated", 200, 61000, "127.0.0.1", "same.example:80")]
             mid = ann + other
-            pre = [s for s in case["steps"] if s[0] in ("connect", "pump", "establish")]
+            pre = [s for s in case["steps"] if s[0] in ("connect", "pump", "establish", "socks-lost", "socks-refuse")]
             post = [s for s in case["steps"] if s[0] == "succeed"]
             case["steps"] = pre + [mid[i] for i in perm] + post
             run_case(case, rec)
